@@ -18,6 +18,7 @@ package tracing
 
 import (
 	"context"
+	"github.com/olive-io/bpmn/v2/internal/verifhook"
 	"sync"
 )
 
@@ -83,6 +84,7 @@ func (t *tracer) run(ctx context.Context) {
 				unsch.ok <- struct{}{}
 			}
 		case trace := <-t.traces:
+			verifhook.Point("tracer.broadcast")
 			for _, subscriber := range t.subscribers {
 				subscriber <- trace
 			}
